@@ -121,6 +121,10 @@ func (s *Shared) c13Cases(tier string) []SchedCase {
 		`{t{... @defer{name} id ... @defer{req}}}`,
 		`{t{... @defer(label:"A"){name} ... @defer(label:"B"){req} ... @defer(label:"A"){kid{id}}}}`,
 		`{ts{... @defer(label:"A"){name} id ... @defer(label:"A"){req}}}`,
+		// the deferred fragment comes FIRST and holds non-null fields
+		`{t{... @defer{req} id name}}`,
+		`{t{... @defer{kidsReq{id}} id}}`,
+		`{ts{... @defer(label:"f"){req kidReq{id}} id}}`,
 		// a non-deferred non-null field of the object itself fails
 		`{t{kidReq{id} ... @defer{name}}}`,
 		`{ts{req ... @defer{name}}}`,
